@@ -1,7 +1,7 @@
 """C10 - the inverse DCT: the structural conditions its accuracy rests on (the Annex A error statistics themselves are not decided statically)."""
 import math
 from ..bitslice import Table, fmt_cond
-from ..loopexpr import Norm, show, guards, guard_term, truth_of, stores, place_term, find
+from ..loopexpr import Norm, show, guards, guard_term, truth_of, stores, place_term, find, mk_mul, mk_add, mk_sub
 from .. import tables
 from ..report import where_of
 from ..facts import Unanalysable
@@ -131,10 +131,12 @@ def rule_c(ck, F):
     for l in N.loops.values():
         if l.kind == 'range' and show(l.hi) == 'blk_per_line': bx = ('ix', l.L)
         if l.kind == 'range' and show(l.hi) == 'Div(len(block_levels), blk_per_line)': by = ('ix', l.L)
-    if bx is None or by is None or show(blk) != 'block_levels[(%s*blk_per_line + %s)]' % (show(by), show(bx)):
+    if bx is None or by is None or blk != ('el', ('v', 'block_levels'), mk_add([mk_mul([by, ('v', 'blk_per_line')]), bx])):
         ck.violation('C', 'C : idct_channel : block index', where_of(b, swb), 'the block processed is %s; expected block_levels[by*blk_per_line + bx] with bx in 0..blk_per_line, by in 0..len/blk_per_line' % show(blk)); return
-    XS = 'clamp(Sub(output_samples_per_line, %s*8), 0, 8)' % show(bx)
-    YS = 'clamp(Sub(Div(len(output), output_samples_per_line), %s*8), 0, 8)' % show(by)
+    SPL = ('v', 'output_samples_per_line')
+    XS_t = ('f', 'clamp', mk_sub(SPL, mk_mul([bx, ('c', 8)])), ('c', 0), ('c', 8))
+    YS_t = ('f', 'clamp', mk_sub(('f', 'Div', ('f', 'len', ('v', 'output')), SPL), mk_mul([by, ('c', 8)])), ('c', 0), ('c', 8))
+    XS, YS = show(XS_t), show(YS_t)
     seen = set()
     for bb, s, t, v in st:
         arm = [vn for vn, a in arm_of.items() if g.dominates(a, bb)]
@@ -144,9 +146,9 @@ def rule_c(ck, F):
         # index: (8 by + y) * spl + 8 bx + x
         idx = t[2]
         ixs = [x for x in find(idx, lambda z: z[0] == 'ix') if x not in (bx, by)]
-        xo = [x for x in ixs if show(N.loops[x[1]].hi) == XS and show(N.loops[x[1]].lo) == '0']
-        yo = [x for x in ixs if show(N.loops[x[1]].hi) == YS and show(N.loops[x[1]].lo) == '0']
-        if len(set(xo)) != 1 or len(set(yo)) != 1 or show(idx) != '((%s*8 + %s)*output_samples_per_line + %s*8 + %s)' % (show(by), show(yo[0]), show(bx), show(xo[0])):
+        xo = [x for x in ixs if N.loops[x[1]].hi == XS_t and show(N.loops[x[1]].lo) == '0']
+        yo = [x for x in ixs if N.loops[x[1]].hi == YS_t and show(N.loops[x[1]].lo) == '0']
+        if len(set(xo)) != 1 or len(set(yo)) != 1 or idx != mk_add([mk_mul([mk_add([mk_mul([by, ('c', 8)]), yo[0]]), SPL]), mk_mul([bx, ('c', 8)]), xo[0]]):
             ck.violation('C', 'C : idct_channel : %s : sample position' % arm, where_of(b, bb), '%s arm stores at output[%s]; expected (8*by + y)*samples_per_line + 8*bx + x with x < %s and y < %s' % (
                 arm, show(idx), XS, YS)); continue
         x, y = xo[0], yo[0]
@@ -157,7 +159,6 @@ def rule_c(ck, F):
             ck.violation('C', 'C : idct_channel : %s : stores' % arm, where_of(b, bb), 'the %s arm stores into the output' % arm); continue
         scale = {'Dc': [('c', 0.125)], 'Full': [('c', 0.25)], 'Horiz': [('c', 0.25), ('el', ('el', ('v', 'const BASIS_TABLE'), ('c', 0)), ('c', 0))]}
         scale['Vert'] = scale['Horiz']
-        from ..loopexpr import mk_mul, mk_add
         inner = mk_add([mk_mul([src] + scale[arm]), mk_mul([('f', 'signum', src), ('c', 0.5)])])
         want = ('f', 'clamp', mk_add([('el', t[1], idx), ('f', 'clamp', ('f', 'trunc', inner), ('c', -256), ('c', 255))]), ('c', 0), ('c', 255))
         if v == want:
